@@ -4,6 +4,7 @@
 // which derivation chains are run; a hostile guest that stores arbitrary bit
 // patterns into pointer cells and returns / passes arbitrary patterns.
 #include "../sim/world_common.hpp"
+#include "../sim/mmu.hpp"
 #include <memory>
 #include <optional>
 #include <variant>
@@ -17,6 +18,7 @@ using Sandbox = rlbox::rlbox_sandbox<Sbx>;
 template<class T>
 using TP = rlbox::tainted<T*, Sbx>;
 static_assert(sizeof(rlbox::tainted_volatile<SimNode, Sbx>) == sizeof(GNode));
+static_assert(sizeof(rlbox::tainted_volatile<int*, Sbx>) == sizeof(Sbx::T_PointerType));
 static_assert(sizeof(rlbox::tainted_volatile<long, Sbx>) == 4);
 
 // ---- guest library (host functions with guest-ABI signatures) ----
@@ -39,29 +41,30 @@ static void glog(int lib, const char* fn, uint64_t a0)
   g_glog.push_back(GuestRec{ lib, cur ? cur->inst_id : -1, fn, a0 });
   bev("guest lib%d %s(%llu)", lib, fn, (unsigned long long)a0);
 }
-static uint32_t g_cb_result_seen; // what the guest got back from the callback
+using PT = Sbx::T_PointerType; // guest pointer representation (uint32_t; uint64_t in the p64 build)
+static PT g_cb_result_seen; // what the guest got back from the callback
 template<int LIB>
 struct G
 {
-  static uint32_t echo_ptr(uint32_t p)
+  static PT echo_ptr(PT p)
   {
     glog(LIB, "echo_ptr", p);
     return p;
   }
-  static uint32_t ret_ptr(uint32_t bits)
+  static PT ret_ptr(uint32_t bits)
   {
     glog(LIB, "ret_ptr", bits);
-    return bits;
+    return (PT)bits;
   }
   static int32_t lib_id()
   {
     glog(LIB, "lib_id", 0);
     return LIB;
   }
-  static uint32_t call_cb(uint32_t idx, uint32_t bits)
+  static PT call_cb(PT idx, uint32_t bits)
   {
     glog(LIB, "call_cb", idx);
-    uint32_t r = Sbx::guest_call<uint32_t, uint32_t>(idx, bits);
+    PT r = Sbx::guest_call<PT, PT>((uint32_t)idx, (PT)bits);
     g_cb_result_seen = r;
     return r;
   }
@@ -127,6 +130,7 @@ enum Kind
   I_ECHO,
   I_RETPTR,
   I_CALLBACK,
+  V_ARITH,
   K_COUNT
 };
 static const char* kKind[] = { "create",       "destroy",      "malloc",     "free",        "free_dead",
@@ -135,7 +139,8 @@ static const char* kKind[] = { "create",       "destroy",      "malloc",     "fr
                                "addeq",        "subeq",        "incdec",     "index_addr",  "deref_addr",
                                "field_addr",   "load",         "load_field", "load_struct", "store",
                                "store_field",  "store_struct", "cast",       "opaque",      "guest_write_cell",
-                               "app_ptr",      "grant",        "invoke_echo", "invoke_retptr", "invoke_callback" };
+                               "app_ptr",      "grant",        "invoke_echo", "invoke_retptr", "invoke_callback",
+                               "volatile_ptr_op" };
 static_assert(sizeof(kKind) / sizeof(kKind[0]) == K_COUNT);
 
 enum TypeTag
@@ -150,7 +155,7 @@ enum TypeTag
   T_NODE,
   T_COUNT
 };
-static const size_t kGuestSize[T_COUNT] = { 1, 2, 4, 4, 8, 8, 4, 40 };
+static const size_t kGuestSize[T_COUNT] = { 1, 2, 4, 4, 8, 8, sizeof(PT), sizeof(GNode) };
 using HV = std::variant<TP<char>, TP<short>, TP<int>, TP<long>, TP<long long>, TP<double>, TP<int*>, TP<SimNode>>;
 struct Handle
 {
@@ -266,7 +271,8 @@ struct MemWorld : World
     int registry = r.chance(1, 2);
     int nsbx = (int)r.range(1, 4);
     int slots = r.chance(1, 3) ? 2 : 8;
-    p.cfg = { logsz, registry, nsbx, slots };
+    int mmu = r.chance(1, 3) && logsz <= 16;
+    p.cfg = { logsz, registry, nsbx, slots, mmu };
     int64_t size = 1LL << logsz;
     int n = (int)r.range(6, thorough ? 60 : 45);
     // op-mix (swarm): base weights then random muting
@@ -288,6 +294,7 @@ struct MemWorld : World
     w[P_SUB] = 5;
     w[P_INDEX_ADDR] = 6;
     w[G_WRITE_CELL] = 6;
+    w[V_ARITH] = mmu ? 14 : 2;
     bool lifecycle_focus = r.chance(1, 4);
     if (lifecycle_focus) {
       for (int k = 0; k < K_COUNT; k++)
@@ -367,6 +374,13 @@ struct MemWorld : World
         case P_GRANT:
           o.a[1] = r.range(1, 64);
           o.a[2] = r.chance(1, 3);
+          break;
+        case V_ARITH:
+          o.a[1] = (int64_t)r.below(5); // which operation
+          o.a[2] = r.chance(1, 2) ? r.range(-3, 3) : interesting_n(r);
+          o.a[3] = (int64_t)(r.chance(1, 8) ? 0 : r.range(1, 3)); // access index at which the guest strikes (0 = never)
+          o.a[4] = (int64_t)r.below(3); // mutation: null / retarget / garbage
+          o.a[5] = (int64_t)r.below((uint64_t)size);
           break;
         default:
           break;
@@ -615,6 +629,11 @@ struct MemWorld : World
       return;
     }
     check_ptr(s, (uintptr_t)st.scratch.UNSAFE_unverified(), "malloc");
+    // a second pointer cell and a node enter the handle pool so that cell-based operations always have material
+    attempt([&] {
+      push<int*>(s, st.sb->malloc_in_sandbox<int*>(), "malloc");
+      push<SimNode>(s, st.sb->malloc_in_sandbox<SimNode>(), "malloc");
+    });
     // callback used by invoke_callback (an owner that outlived the previous incarnation is leaked,
     // not destroyed: what its destructor may do to the new incarnation is not what is examined here)
     if (st.cbptr)
@@ -940,9 +959,9 @@ struct MemWorld : World
     SbxState& st = S[(size_t)s];
     if (st.state == 1) {
       // make the cell non-zero through the guest view, then load through it
-      uint32_t off = (uint32_t)((uintptr_t)st.scratch.UNSAFE_unverified() - st.base());
+      PT off = (PT)((uintptr_t)st.scratch.UNSAFE_unverified() - st.base());
       uint32_t celloff = (uint32_t)((uintptr_t)st.pcell.UNSAFE_unverified() - st.base());
-      memcpy(st.impl()->gptr(celloff), &off, 4);
+      memcpy(st.impl()->gptr(celloff), &off, sizeof off);
       uint64_t before = Sbx::n_registry;
       Sbx::last_registry_inst = -2;
       TP<int> q = nullptr;
@@ -1029,20 +1048,20 @@ struct MemWorld : World
         return;
       auto cell = rlbox::sandbox_reinterpret_cast<char**>(st.pcell);
       uint32_t celloff = (uint32_t)((uintptr_t)st.pcell.UNSAFE_unverified() - st.base());
-      uint32_t prev;
-      memcpy(&prev, st.impl()->gptr(celloff), 4);
+      PT prev;
+      memcpy(&prev, st.impl()->gptr(celloff), sizeof prev);
       Outcome o = attempt([&] { (*cell).assign_raw_pointer(*st.sb, raw); });
       C->ev("assign_raw volatile cls %d -> %s", (int)op.a[1], oname(o));
       if ((o == OK) != inside) {
         C->violate("C02", std::string(inside ? "in_sandbox_address_refused@" : "foreign_address_accepted@") + opn, "address class %d", (int)((uint64_t)op.a[1] % 14));
         return;
       }
-      uint32_t now;
-      memcpy(&now, st.impl()->gptr(celloff), 4);
-      if (o == OK && now != (uint32_t)(addr - st.base()))
-        C->violate("C02", std::string("stored_representation_wrong@") + opn, "guest cell holds %u expected %u", now, (uint32_t)(addr - st.base()));
+      PT now;
+      memcpy(&now, st.impl()->gptr(celloff), sizeof now);
+      if (o == OK && now != (PT)(addr - st.base()))
+        C->violate("C02", std::string("stored_representation_wrong@") + opn, "guest cell holds %llu expected %llu", (unsigned long long)now, (unsigned long long)(addr - st.base()));
       else if (o != OK && now != prev)
-        C->violate("C02", std::string("destination_changed_by_refused_assignment@") + opn, "guest cell %u -> %u", prev, now);
+        C->violate("C02", std::string("destination_changed_by_refused_assignment@") + opn, "guest cell %llu -> %llu", (unsigned long long)prev, (unsigned long long)now);
     }
   }
 
@@ -1185,15 +1204,15 @@ struct MemWorld : World
   void check_load(int s, uint32_t celloff, uintptr_t got, const char* opn)
   {
     SbxState& st = S[(size_t)s];
-    uint32_t rep;
-    memcpy(&rep, st.impl()->gptr(celloff), 4);
+    PT rep;
+    memcpy(&rep, st.impl()->gptr(celloff), sizeof rep);
     uintptr_t want = rep == 0 ? 0 : st.base() + (rep & (st.size() - 1));
     if (got != want) {
       const LiveRegion* lr = got ? region_of((void*)got) : nullptr;
       C->violate("C04",
                  std::string(rep == 0 ? "null_not_preserved@" : lr && lr->inst != st.impl() ? "translated_relative_to_other_sandbox@" : "wrong_address@") + opn,
-                 "cell holds representation %u, load produced offset %lld (expected %lld)",
-                 rep,
+                 "cell holds representation %llu, load produced offset %lld (expected %lld)",
+                 (unsigned long long)rep,
                  got ? (long long)(got - st.base()) : -1LL,
                  want ? (long long)(want - st.base()) : -1LL);
     }
@@ -1201,7 +1220,7 @@ struct MemWorld : World
   void do_load(const Op& op)
   {
     Handle* h = pick(op.a[0], T_PINT);
-    if (!h || !fits(*h, 4))
+    if (!h || !fits(*h, sizeof(PT)))
       return;
     int s = h->sbx;
     auto& pp = std::get<TP<int*>>(h->v);
@@ -1238,7 +1257,7 @@ struct MemWorld : World
           push<SimNode>(s, n.next, opn);
         } else {
           TP<int> e = n.ptrs[idx];
-          check_load(s, off + (uint32_t)offsetof(GNode, ptrs) + 4 * (uint32_t)idx, (uintptr_t)e.UNSAFE_unverified(), opn);
+          check_load(s, off + (uint32_t)offsetof(GNode, ptrs) + (uint32_t)sizeof(PT) * (uint32_t)idx, (uintptr_t)e.UNSAFE_unverified(), opn);
           push<int>(s, e, opn);
         }
       } else {
@@ -1252,7 +1271,7 @@ struct MemWorld : World
           push<SimNode>(s, q, opn);
         } else {
           TP<int> q = t->ptrs[idx];
-          check_load(s, off + (uint32_t)offsetof(GNode, ptrs) + 4 * (uint32_t)idx, (uintptr_t)q.UNSAFE_unverified(), opn);
+          check_load(s, off + (uint32_t)offsetof(GNode, ptrs) + (uint32_t)sizeof(PT) * (uint32_t)idx, (uintptr_t)q.UNSAFE_unverified(), opn);
           push<int>(s, q, opn);
         }
       }
@@ -1265,21 +1284,21 @@ struct MemWorld : World
   void check_store(int s, uint32_t celloff, uintptr_t stored, const char* opn)
   {
     SbxState& st = S[(size_t)s];
-    uint32_t rep;
-    memcpy(&rep, st.impl()->gptr(celloff), 4);
-    uint32_t want = stored == 0 ? 0 : (uint32_t)(stored - st.base());
+    PT rep;
+    memcpy(&rep, st.impl()->gptr(celloff), sizeof rep);
+    PT want = stored == 0 ? 0 : (PT)(stored - st.base());
     if (rep != want)
       C->violate("C04",
                  std::string(stored == 0 ? "null_not_preserved@" : "wrong_representation@") + opn,
-                 "stored offset %lld, guest cell holds %u (expected %u)",
+                 "stored offset %lld, guest cell holds %llu (expected %llu)",
                  stored ? (long long)(stored - st.base()) : -1LL,
-                 rep,
-                 want);
+                 (unsigned long long)rep,
+                 (unsigned long long)want);
   }
   void do_store(const Op& op)
   {
     Handle* h = pick(op.a[0], T_PINT);
-    if (!h || !fits(*h, 4))
+    if (!h || !fits(*h, sizeof(PT)))
       return;
     int s = h->sbx;
     Handle* q = pick(op.a[1], T_INT);
@@ -1328,7 +1347,7 @@ struct MemWorld : World
         check_store(s, off + (uint32_t)offsetof(GNode, next), (uintptr_t)qnv.UNSAFE_unverified(), "store_field");
       } else {
         t->ptrs[idx] = qiv;
-        check_store(s, off + (uint32_t)offsetof(GNode, ptrs) + 4 * (uint32_t)idx, (uintptr_t)qiv.UNSAFE_unverified(), "store_field");
+        check_store(s, off + (uint32_t)offsetof(GNode, ptrs) + (uint32_t)sizeof(PT) * (uint32_t)idx, (uintptr_t)qiv.UNSAFE_unverified(), "store_field");
       }
     });
     C->ev("store_field f%d -> %s", f, oname(o));
@@ -1358,7 +1377,7 @@ struct MemWorld : World
     C->probe("struct_copied_through_application");
     GNode after;
     memcpy(&after, st.impl()->gptr(doff), sizeof after);
-    auto norm = [&](uint32_t rep) { return rep == 0 ? 0u : (uint32_t)(rep & (st.size() - 1)); };
+    auto norm = [&](PT rep) { return rep == 0 ? (PT)0 : (PT)(rep & (st.size() - 1)); };
     bool ok = norm(before.next) == after.next && norm(before.data) == after.data;
     for (int i = 0; i < 3; i++)
       ok = ok && norm(before.ptrs[i]) == after.ptrs[i];
@@ -1433,13 +1452,15 @@ struct MemWorld : World
   void do_guest_write(const Op& op)
   {
     Handle* h = pick(op.a[0]);
-    if (!h || !fits(*h, 4))
+    if (!h || !fits(*h, sizeof(PT)))
       return;
     SbxState& st = S[(size_t)h->sbx];
     uint32_t off = (uint32_t)(haddr(*h) - st.base());
-    uint32_t bits = (uint32_t)op.a[1];
-    memcpy(st.impl()->gptr(off), &bits, 4);
-    C->ev("guest writes %u at %u", bits, off);
+    PT bits = (PT)(uint32_t)op.a[1];
+    if (sizeof(PT) == 8 && (op.a[2] & 1))
+      bits |= (PT)((uint64_t)op.a[1] << 33); // garbage in the upper half of a wide representation
+    memcpy(st.impl()->gptr(off), &bits, sizeof bits);
+    C->ev("guest writes %llu at %u", (unsigned long long)bits, off);
     C->fired("F1_hostile_cell_value");
   }
   void do_app_ptr(const Op& op)
@@ -1507,13 +1528,13 @@ struct MemWorld : World
       C->violate("C04", "invoke_with_pointer_aborts@invoke_echo", "%s", g_last_abort_msg.c_str());
       return;
     }
-    uint32_t want = a == 0 ? 0 : (uint32_t)(a - st.base());
+    PT want = a == 0 ? 0 : (PT)(a - st.base());
     if (g_glog.size() != before + 1 || g_glog.back().a0 != want) {
       C->violate("C04",
                  std::string(a == 0 ? "null_not_preserved@" : "wrong_representation@") + "invoke_echo",
-                 "guest saw pointer argument %llu, expected %u",
+                 "guest saw pointer argument %llu, expected %llu",
                  g_glog.size() > before ? (unsigned long long)g_glog.back().a0 : 0ULL,
-                 want);
+                 (unsigned long long)want);
       return;
     }
     if ((uintptr_t)r.UNSAFE_unverified() != a)
@@ -1571,13 +1592,86 @@ struct MemWorld : World
       return;
     }
     check_ptr(s, g_cb_arg_seen, "invoke_callback");
-    uint32_t wantrep = retaddr == 0 ? 0 : (uint32_t)(retaddr - st.base());
+    PT wantrep = retaddr == 0 ? 0 : (PT)(retaddr - st.base());
     if (g_cb_result_seen != wantrep)
       C->violate("C04",
                  std::string(retaddr == 0 ? "null_not_preserved@" : "wrong_representation@") + "invoke_callback",
-                 "guest received %u from the callback, expected %u",
-                 g_cb_result_seen,
-                 wantrep);
+                 "guest received %llu from the callback, expected %llu",
+                 (unsigned long long)g_cb_result_seen,
+                 (unsigned long long)wantrep);
+  }
+
+  // Operations applied directly to a pointer that lives in sandbox memory (tainted_volatile<T*>),
+  // with the guest rewriting that cell at RLBox's k-th access to the region (trap-MMU runs).
+  struct VolFault
+  {
+    uint8_t* gcell;
+    uint64_t k;
+    PT value;
+    bool fired;
+  };
+  static void vol_hook(uint64_t k, uint32_t, bool, void* ud)
+  {
+    auto* f = (VolFault*)ud;
+    if (!f->fired && k == f->k) {
+      memcpy(f->gcell, &f->value, sizeof(PT));
+      f->fired = true;
+    }
+  }
+  void do_volatile(const Op& op)
+  {
+    Handle* h = pick(op.a[0], T_PINT);
+    Handle* hn = pick(op.a[0], T_NODE);
+    int which = (int)((uint64_t)op.a[1] % 5);
+    bool use_node = which == 4;
+    if (use_node ? (!hn || !fits(*hn, sizeof(GNode))) : (!h || !fits(*h, sizeof(PT))))
+      return;
+    int s = use_node ? hn->sbx : h->sbx;
+    SbxState& st = S[(size_t)s];
+    uint32_t celloff = use_node ? (uint32_t)(haddr(*hn) - st.base()) + (uint32_t)offsetof(GNode, next) : (uint32_t)(haddr(*h) - st.base());
+    // make the cell hold a valid pointer first (the scratch cell of this sandbox)
+    PT valid = (PT)((uintptr_t)st.scratch.UNSAFE_unverified() - st.base());
+    memcpy(st.impl()->gptr(celloff), &valid, sizeof valid);
+    VolFault vf;
+    vf.gcell = st.impl()->gptr(celloff);
+    vf.k = (uint64_t)op.a[3];
+    int mut = (int)((uint64_t)op.a[4] % 3);
+    vf.value = mut == 0 ? (PT)0 : mut == 1 ? (PT)(((uint64_t)op.a[5] & (st.size() - 1)) | 8) : (PT)((uint64_t)op.a[5] * 2654435761u);
+    vf.fired = false;
+    int64_t n = op.a[2];
+    bool armed = Sbx::cfg.mmu && vf.k != 0;
+    if (armed)
+      mmu::arm(st.impl()->mem.base, st.size(), vol_hook, &vf);
+    Outcome o = attempt([&] {
+      if (use_node) {
+        auto& t = std::get<TP<SimNode>>(hn->v);
+        auto r = &(t->next->tag); // operator-> applied to a pointer stored in sandbox memory
+        push<long>(s, rlbox::sandbox_const_cast<long*>(r), "volatile_ptr_op");
+      } else {
+        auto& pp = std::get<TP<int*>>(h->v);
+        auto& vp = *pp; // tainted_volatile<int*>&
+        if (which == 0) {
+          TP<int> r = vp + (int)n;
+          push<int>(s, r, "volatile_ptr_op");
+        } else if (which == 1) {
+          TP<int> r = vp - (long)n;
+          push<int>(s, r, "volatile_ptr_op");
+        } else if (which == 2) {
+          auto r = &vp[(unsigned)n];
+          push<int>(s, rlbox::sandbox_const_cast<int*>(r), "volatile_ptr_op");
+        } else {
+          auto r = &(*vp);
+          push<int>(s, rlbox::sandbox_const_cast<int*>(r), "volatile_ptr_op");
+        }
+      }
+    });
+    if (armed) {
+      C->st.steps += mmu::g.count;
+      mmu::disarm();
+    }
+    C->ev("volatile_ptr_op %d n=%lld strike@%llu mut=%d fired=%d -> %s", which, (long long)n, (unsigned long long)vf.k, mut, (int)vf.fired, oname(o));
+    if (vf.fired)
+      C->fired("F2_pointer_cell_rewritten_between_accesses");
   }
 
   void run(const Plan& p, Ctx& c) override
@@ -1602,7 +1696,8 @@ struct MemWorld : World
       nsbx = 4;
     Sbx::cfg.slots = p.cfg.size() > 3 && p.cfg[3] >= 1 && p.cfg[3] <= 64 ? (int)p.cfg[3] : 8;
     Sbx::n_registry = 0;
-    c.ev("cfg size=2^%d registry=%d nsbx=%d slots=%d", logsz, (int)registry, nsbx, Sbx::cfg.slots);
+    Sbx::cfg.mmu = p.cfg.size() > 4 && p.cfg[4] && logsz <= 16;
+    c.ev("cfg size=2^%d registry=%d nsbx=%d slots=%d mmu=%d", logsz, (int)registry, nsbx, Sbx::cfg.slots, (int)Sbx::cfg.mmu);
     S.clear();
     H.clear();
     H.reserve(64); // handles are referenced by pointer while new ones are pushed
@@ -1711,6 +1806,9 @@ struct MemWorld : World
         case I_CALLBACK:
           do_callback(op);
           break;
+        case V_ARITH:
+          do_volatile(op);
+          break;
       }
       int live = 0;
       for (auto& st : S)
@@ -1742,7 +1840,7 @@ int main(int argc, char** argv)
   libs().push_back(make_lib<0>());
   libs().push_back(make_lib<1>());
   install_crash_handlers("replays");
-  install_segv_handler();
+  mmu::install(crash_handler);
   MemWorld w;
   return sim_main(w, argc, argv);
 }
